@@ -176,7 +176,12 @@ def builtin(ex, st, callee, args, dty, fr):
             for cnd, nm in enum_split(ex, st, v, ["None", "Some"]):
                 if nm == "Some":
                     inner = generic_args(dty)
-                    out.append((cnd, opt_some(dty, ex.fresh_lazy(inner[0] if inner else "?", "mapped"))))
+                    mv = ex.fresh_lazy(inner[0] if inner else "?", "mapped")
+                    if hasattr(mv, "oid"):        # provenance: the mapped value is a function of the closure and the payload
+                        pl = payload(ex, st, v, "Some", 0, "?")
+                        ex.havoc_calls[mv.oid] = ("Option::map", [args[1], pl])
+                        ex.havoc_snap[mv.oid] = [deref_val(ex, st, args[1]), pl]
+                    out.append((cnd, opt_some(dty, mv)))
                 else:
                     out.append((cnd, opt_none(dty)))
             return out
